@@ -10,6 +10,8 @@ fn run_family<F: VF>(family: &str, ctx: &mut Ctx) {
     match family {
         "gates" => symf::gates::family::<F>(ctx),
         "fri" => symf::fri::family::<F>(ctx),
+        "plonk" => symf::plonk::family::<F>(ctx),
+        "plonkv" => symf::plonkv::family::<F>(ctx),
         _ => panic!("unknown family {family}"),
     }
 }
